@@ -154,7 +154,8 @@ class Contract:
                 ip.assume(to_bool_term(t) if not isinstance(t, bool) else t)
         finally:
             ip.pure -= 1
-        ip.call_log.setdefault(self.target, []).append(I.NS(args=I.NS(**argv), result=res))
+        if not getattr(ip, "defining", 0):
+            ip.call_log.setdefault(self.target, []).append(I.NS(args=I.NS(**argv), result=res))
         return res
 
 
